@@ -290,13 +290,19 @@ EXPECTED_INTERIOR = sorted([
     ("variablescope.rs", "functions: Mutex<BTreeMap<Name, Function>>"),
     ("variablescope.rs", "forward: Mutex<Option<ScopeRef>>"),
     ("variablescope.rs", "content: ArcSwapOption<MixinDecl>"),
+    # since /repo 17cd11e/23c2f01: names configured by `with` and not yet met by a `!default` declaration.
+    # Per-compilation: `configure` is only called on the fresh `ScopeRef::new_global` module of a user file
+    # (built-in urls return ConfigBuiltin first); `config_used` runs on the scope executing `$x: v !default`
+    # and its parents (user scopes; built-in module scopes execute no statements and are nobody's parent).
+    ("variablescope.rs", "config: Mutex<BTreeSet<Name>>"),
 ])
 # methods of `Scope` that write one of those fields (each is accounted for in Glue/Globals.lean's header)
-EXPECTED_WRITERS = sorted(["define_module", "assign", "define", "define_global", "restore_local_values", "define_mixin",
-                           "define_function", "forward", "define_content"])
-# (since /repo 2e77b95/90cea8e `set_variable` no longer writes itself: it refuses built-in modules in its
-#  module-path branch — unchanged — and then delegates to `assign` (walks the parent chain of USER scopes; a
-#  built-in module scope is never the parent of another scope) or `define_global`; `define` inserts directly.)
+EXPECTED_WRITERS = sorted(["define_module", "declare", "define", "define_global", "restore_local_values", "define_mixin",
+                           "define_function", "forward", "define_content", "configure", "config_used", "assign"])
+# History of this list: until /repo 2e77b95 `set_variable` wrote itself; then `assign`/`define`; since 72b9cb5 new
+# variables go through `declare` (walks up through `import` sub-scopes of USER scopes) and `assign`'s in-place update;
+# 17cd11e/23c2f01 added `configure`/`config_used`.  `set_variable` still refuses built-in modules in its module-path
+# branch (unchanged) before any of them is reached; a built-in module scope is never the parent of another scope.
 EXPECTED_DEP_WARN_SITES = 4
 
 _STATIC = re.compile(r"^\s*(?:pub(?:\([^)]*\))?\s+)?static\s+(?:mut\s+)?([A-Za-z_][A-Za-z_0-9]*)\s*:\s*(.+?)\s*=", re.M | re.S)
@@ -332,7 +338,7 @@ def inventory():
                     i += 1
                 body = src[m.end():i]
                 flat = re.sub(r"\s+", "", body)
-                guards = re.findall(r"letmut(\w+)=self\.\w+\.lock\(\)\.unwrap\(\);", flat)
+                guards = re.findall(r"letmut(\w+)=\w+\.\w+\.lock\(\)\.unwrap\(\);", flat)
                 wr = r"\.(insert|remove|get_or_insert_with|clear|extend|retain|append|pop\w*)\("
                 if re.search(r"self\.\w+\.lock\(\)\.unwrap\(\)" + wr, flat) or "self.content.store(" in flat \
                         or any(re.search(r"\b" + g + wr, flat) for g in guards) \
